@@ -304,43 +304,66 @@ ALL = [f"C{n:02d}" for n in range(1, 21)]
 
 # what later rounds added (after independent seeded changes, DESIGN §10); appended to the texts above
 EXTENDED = {
-    "C01": "Extended: the public array API function by function vs NumPy's own functions (harness/apitable.py: ~1550 calls incl. "
-           "method forms, mixed-rank matmul, compound expressions, constant-valued array operands) — the graph's value and the "
-           "generated code; special values (NaN/inf/-0.0 stream and function x value-class table); loopy calls with colliding "
-           "callee names; C compile errors of generated code are classified (only loopy-C-target limitations are tolerated). "
-           "Lean: the API construction layer is modelled (binop_sound, where_sound, reduce_sound, full/eye/arange/csr_matmul_sound, "
-           "api_emits_own_name over a table regenerated from the live code).",
+    "C01": "Extended: the public array API function by function vs NumPy's own functions (harness/apitable.py: ~1900 calls incl. "
+           "method forms, mixed-rank matmul, compound expressions, constant-valued array operands, integer parameters spelled as "
+           "NumPy integers of every width/signedness, comparisons of mixed signedness/width/kind, signed floor division, zero-size "
+           "constructors, rank mismatches) — the graph's value and the generated code; special values; loopy calls with colliding "
+           "callee names; C compile errors of generated code are classified. Lean: the API construction layer (binop_sound, "
+           "where_sound, reduce_sound, full/eye/arange/csr_matmul_sound, api_emits_own_name over a regenerated table) and the loopy "
+           "STATEMENT GENERATOR (LoopyGen.lean): loopygen_sound_partial / loopygen_checks_partial / ..._any_schedule on the "
+           "decidable reduction-free fragment (inlined, stored and named temporaries, outputs using each other); the model's kernel "
+           "equals the real kernel's read-back statement by statement on 100 % of the programs (reductions, Boolean constants, "
+           "empty results are modelled and tied but not yet inside the proved fragment). A single real-code call that does not "
+           "finish (300 s / 16 GB) is reported as a violation by the watchdog of harness/main.py.",
     "C02": "Extended: theorems now also for stack, concatenate, reshape (C and F, total), pad (incl. symbolic axes), einsum "
            "(lower_einsum_correct), advanced indexing (lower_advindex_correct, partial: segment computation tied by text), binary "
-           "operators with broadcasting, where, reductions over every axis subset, constructors, CSR matmul; each with an exact "
-           "expression-text tie on an exhaustive small scope; basic indices written with an Ellipsis.",
+           "operators with broadcasting (comparisons in NumPy's promoted operand type), where, reductions over every axis subset, "
+           "constructors, CSR matmul; each with an exact expression-text tie on an exhaustive small scope; basic indices written "
+           "with an Ellipsis; repeated / equal / distinct index operands on axes of different lengths.",
     "C03": "Extended: exhaustive 1-d slice shapes, exhaustive index forms (ints, slices, index arrays, Ellipsis; 13 563 tuples), "
-           "API-table shapes with boundary constructor arguments.",
-    "C04": "Extended: argument spellings (dtype as class/string/np.dtype, numpy integers of every width): equal, same hash, one key.",
+           "API-table shapes with boundary constructor arguments, n-ary dtype inference over all ordered dtype triples "
+           "(concatenate/stack/einsum/where/maximum/minimum, 16 464 cases), axis tuples with mixed signs and duplicates.",
+    "C04": "Extended: argument spellings (dtype as class/string/np.dtype, numpy integers of every width): equal, same hash, one key; "
+           "length mutants of every variadic field.",
     "C05": "Extended: reference taken from the graph as built; repeated operands for every multi-operand kind; overlapping views of "
-           "one buffer; hash-colliding distinct nodes; explicit tag conflicts counted as refusals.",
+           "one buffer; hash-colliding distinct nodes; explicit tag conflicts counted as refusals; idempotence with pre-placed tags.",
     "C06": "Extended: shared operand sub-expressions between einsums of one pattern, same-rank broadcasting sums in table and "
            "generator, several unit axes per operand, unit axis on one occurrence of a repeated index.",
-    "C07": "Extended: ImplStored on inputs; exhaustive chain p -> q(p) -> out(p, q) x tag pairs; Named names shared with PrefixNamed.",
+    "C07": "Extended: ImplStored on inputs; exhaustive chain p -> q(p) -> out(p, q) x tag pairs; Named names shared with PrefixNamed; "
+           "truthful promise tags; every tag variant's kernel also compared with the Lean statement-generator model (360/360).",
+    "C08": "Extended: executor re-validated on the whole node-kind space of payloads/consumers/bystanders; executing one partition twice.",
     "C09": "Extended: the partitioner is modelled in Lean (Partition.lean) and compared field by field with every real partition "
-           "(946/946 agree); partition_wf_partial (GoodProgram p -> WFexec (partitionOf p)), partition_exec_faithful, "
-           "partition_comm_once, partition_deterministic, diagnoses_exact. Not proved: the full WF statement (received names never "
-           "outputs, name uniqueness, round clauses) and number_distributed_tags composed with the model.",
-    "C10": "Extended: differential test of the real scheduler against longest-path levels and the Lean batches on shuffled and cyclic graphs.",
+           "(100 % agree on ~1000 programs per seed incl. constructors without operands, reductions, where, pad, zero-size and 0-d "
+           "arrays, rings sharing one symbolic tag); partition_wf IN FULL (GoodProgram p -> NamesOK base p -> WF (partitionOf base p), "
+           "all 19 clauses as clause_* theorems), partition_exec_faithful, partition_comm_once, partition_deterministic, diagnoses_exact; "
+           "tag numbering vs the model partition. Not proved: checkWF (partitionOf p) = true as a theorem, order inside a batch.",
+    "C10": "Extended: differential test of the real scheduler against longest-path levels and the Lean batches on shuffled and cyclic "
+           "graphs; Lean model of verify_distributed_partition (diagnose_partition_exact/sound/complete) with a partition-level fault layer.",
     "C11": "Extended: access theorems for pad, einsum, advanced indexing (affine parts), binary ops/where, reductions, constructors, CSR; "
            "symbolic programs with pad/strided slices/concatenate/expand_dims/broadcast_to/multi-index einsums and degenerate symbolic lengths.",
-    "C12": "Extended: keyword arguments written in shuffled order.",
+    "C12": "Extended: Lean model of multi-return calls, tracing, selective inlining and tag_all (CallsMulti.lean, 34 obligations: "
+           "call_result_projection, tuple_names_positional, trace_call_denote, inline_sound_multi for any tagging/nesting, "
+           "inline_preserves_sharing, tag_all_complete, ...) with an exhaustive structural tie (767 cases) and a seeded selective-inlining batch.",
     "C13": "Extended: nested shared functions (every body once), result de-duplication with sharing, single-edge replacement for every "
-           "kind x edge x transform mapper, ladders through every edge class counted at class level (incl. EqualityComparer, hashing, keys).",
-    "C14": "Extended: scalar-operand forms (Python/typed/negative/inf/nan/-0.0 x 7 operators x both sides), dtype mismatches, C19's "
-           "near-misses through the target, API table vs NumPy's functions, non-lexicographic output keys; a Lean model of the emitter "
-           "(pygen) with a text tie is being added (see evidence for what the build contains).",
-    "C15": "Extended: adversarial name tags (Named/PrefixNamed colliding with inputs, outputs and derived names), Named => exactly that name.",
-    "C16": "Extended: every consumer of the shape-equality decision; degenerate affine spellings; every symbolic kernel also interpreted.",
+           "kind x edge x transform mapper, ladders through every edge class counted at class level (incl. EqualityComparer, hashing, keys); "
+           "extra arguments passed positionally / by keyword / mixed reach every node through every edge class.",
+    "C14": "Extended: Lean model of the NumPy-like generator (PyAst/PyGen/PyDenote/PyParse): pygen_sound on the decidable fragment, "
+           "pygen_refuses, outputs_aligned, print_parse_roundtrip, print_precedence_sound, il_value_pointwise; the emitted TEXT of the "
+           "real generator equals the model's on ~4300 graphs per run (97 % inside the proved fragment); scalar-operand forms, dtype "
+           "mismatches, C19's near-misses through the target, API table vs NumPy's functions, Ellipsis next to advanced indices.",
+    "C15": "Extended: adversarial name tags (Named/PrefixNamed colliding with inputs, outputs and derived names), Named => exactly that "
+           "name; loopy-call scenarios; user names equal to the identifiers of the generated Python module (np, the entry point).",
+    "C16": "Extended: every consumer of the shape-equality decision (incl. >= 3 operands, einsum diagonals, rank mismatches); degenerate "
+           "affine spellings; every symbolic kernel also interpreted. Lean: shape inference of 13 node kinds over affine dims "
+           "(SymShape.lean): symshape_<kind>_sound for every kind, slice_len_sym_sound / _refusals, completeness where true; tie of the "
+           "real .shape (affine structure) with the model on ~3000 cases per run.",
     "C17": "Extended: multi-output programs with output-to-output dependencies; fan-in communication with symbolic tags; per-part "
-           "generated code (kernel, source, argument order, bound data) across hash seeds.",
-    "C18": "Extended: wrapped-data sensitivity (sizes around block boundaries x positions x layouts; views of one buffer); argument spellings.",
-    "C19": "Extended: unit-axis shapes for unary/math/reductions, fused-broadcast near-misses, lowered high-level nodes, operands that do not broadcast.",
+           "generated code across hash seeds; loopy-call programs generated with and without earlier code generation in the process; "
+           "names differing only in case.",
+    "C18": "Extended: wrapped-data sensitivity (sizes around block boundaries x positions x layouts; views of one buffer); argument "
+           "spellings; scalar-constant sensitivity (pairs of constants with differing results must give differing keys).",
+    "C19": "Extended: unit-axis shapes for unary/math/reductions, fused-broadcast and flattened-subtraction near-misses, lowered "
+           "high-level nodes, operands that do not broadcast, nan/inf fills, NaN of a type without NaN.",
     "C20": "Extended: DependencyMapper / SubsetDependencyMapper / InputGatherer / SizeParamGatherer vs the reflective closure on every node kind.",
 }
 for _k, _v in EXTENDED.items():
